@@ -505,6 +505,58 @@ func init() {
 		*h = fh
 		return tuple{x.tb.Const(64, uint64(n)), iface{}}
 	})
+	// (*os.File).Stat / os.Stat of a stub file: a regular file whose size is the length of its content
+	fileInfo := func(x *Exec, path string) value {
+		osp := x.P.prog.ImportedPackage("os")
+		if osp == nil || osp.Type("fileStat") == nil {
+			panic(unsupported{"os.fileStat not available"})
+		}
+		st := osp.Type("fileStat").Type()
+		str := st.Underlying().(*types.Struct)
+		cell := x.zero(st)
+		sv, ok := cell.(structure)
+		if !ok {
+			panic(unsupported{"os.fileStat representation"})
+		}
+		n := len(x.bytesOf(x.fileData[path].data))
+		for i := 0; i < str.NumFields(); i++ {
+			switch str.Field(i).Name() {
+			case "size":
+				sv[i] = x.tb.Const(64, uint64(n))
+			case "name":
+				base := path
+				if k := strings.LastIndex(base, "/"); k >= 0 {
+					base = base[k+1:]
+				}
+				sv[i] = strVal{s: base}
+			}
+		}
+		cell = sv
+		return iface{t: types.NewPointer(st), v: &cell}
+	}
+	reg("(*os.File).Stat", func(x *Exec, fr *frame, args []value) value {
+		h, _ := args[0].(*value)
+		if h == nil {
+			panic(unsupported{"Stat on a nil *os.File"})
+		}
+		fh, ok := (*h).(fileHandle)
+		if !ok || fh.closed {
+			panic(unsupported{"Stat of an unmodelled or closed file"})
+		}
+		return tuple{fileInfo(x, fh.path), iface{}}
+	})
+	reg("os.Stat", func(x *Exec, fr *frame, args []value) value {
+		p, ok := args[0].(strVal).concrete()
+		if !ok {
+			panic(unsupported{"os.Stat with symbolic path"})
+		}
+		fs, ok := x.fileData[p]
+		if !ok || !fs.exists {
+			cell := value(structure{strVal{s: "stat " + p + ": no such file or directory"}})
+			return tuple{iface{}, iface{t: types.NewPointer(x.errStrType), v: &cell}}
+		}
+		return tuple{fileInfo(x, p), iface{}}
+	})
 	reg("(*os.File).Close", func(x *Exec, fr *frame, args []value) value {
 		h, _ := args[0].(*value)
 		if h == nil {
